@@ -3,6 +3,7 @@ package main
 // Library functions and types with built-in models, globals, error values, strings.
 
 import (
+	"strconv"
 	"fmt"
 	"go/ast"
 	"go/constant"
@@ -36,6 +37,9 @@ func (x *Exec) havocSliceOf(e *Env, t types.Type, u *types.Slice, base string) V
 
 func (x *Exec) makeSliceOf(e *Env, t types.Type, u *types.Slice, ln, cp *Term) Value {
 	n, ok := ln.Int64()
+	if !ok {
+		n, ok = x.simplifyWithPC(e.st, ln).Int64()
+	}
 	if !ok {
 		unsupported("make of slice of %s with symbolic length", u.Elem())
 	}
@@ -597,7 +601,7 @@ func (x *Exec) absBinop(e *Env, op token.Token, a, b Value, at ast.Node) Value {
 				return c.T, c.Typ, true
 			}
 		case UConst:
-			return App("float_const_"+sanitizeConst(c.V.ExactString()), fs), nil, true
+			return App("float_const_"+floatConstName(c.V), fs), nil, true
 		}
 		return nil, nil, false
 	}
@@ -637,6 +641,13 @@ func (x *Exec) absBinop(e *Env, op token.Token, a, b Value, at ast.Node) Value {
 	return nil
 }
 
+// floatConstName: constants are named by their float64 value, so that an untyped constant in a
+// specification and the same constant after conversion in the code give the same symbol.
+func floatConstName(v constant.Value) string {
+	f, _ := constant.Float64Val(constant.ToFloat(v))
+	return sanitizeConst(strconv.FormatFloat(f, 'x', -1, 64))
+}
+
 func sanitizeConst(s string) string {
 	r := []rune{}
 	for _, c := range s {
@@ -661,7 +672,7 @@ func (x *Exec) mathFloatFunc(e *Env, name string, n *ast.CallExpr) (Value, bool)
 		case AbsV:
 			args = append(args, c.T)
 		case UConst:
-			args = append(args, App("float_const_"+sanitizeConst(c.V.ExactString()), fs))
+			args = append(args, App("float_const_"+floatConstName(c.V), fs))
 		default:
 			return nil, false
 		}
@@ -699,6 +710,16 @@ func (x *Exec) globalValue(e *Env, o *types.Var) Value {
 		unsupported("package-level variable %s.%s: package syntax not loaded", o.Pkg().Path(), o.Name())
 	}
 	if !immutableGlobal(p.Syntax, p.TypesInfo, o) {
+		// a package-level variable that the package assigns somewhere (configuration state): its
+		// current value is unknown but fixed for the duration of the function under proof. Sound as
+		// long as the code being executed does not assign it, and assignments to package-level
+		// variables are outside the supported subset.
+		if s := e.R().sortOf(o.Type()); s != nil && s.K == KUn {
+			v := Scalar{Var("global."+o.Pkg().Name()+"."+o.Name(), s), o.Type()}
+			x.globals[o] = v
+			x.trusted["package variable "+o.Pkg().Name()+"."+o.Name()+" has an arbitrary value that does not change during a call"] = true
+			return v
+		}
 		unsupported("package-level variable %s.%s is assigned somewhere in its package", o.Pkg().Path(), o.Name())
 	}
 	// find the initialiser
